@@ -1,5 +1,5 @@
 (* VM simulation: the mutual induction on the reference fuel that ties the per-construct lemmas together.
-   Covers the whole core language: all expressions (incl. calls, strings), all statements (incl. while/for/break/
+   Covers the whole core language: all expressions (incl. calls, strings, array literals / at / array_length), all statements (incl. while/for/break/
    continue/return), recursion through the function table. *)
 From Coq Require Import ZArith NArith List Bool Lia.
 From NV Require Import Base.Bytes Isa.Codec Isa.CodecProofs gen.IsaTable Lang.Ast Lang.Ref Back.VmCompile Back.VmExec Back.OpTable
@@ -20,7 +20,7 @@ Proof.
   induction fuel as [|fuel (IHe & IHs & IHf)].
   - split; [intros; apply expr_sim_0|]. split; [intros; apply stmt_sim_0|intros; apply for_sim_0].
   - split; [|split].
-    + intros e. destruct e as [z|b|s|x|o a|o a b|f args|c a b].
+    + intros e. destruct e as [z|b|s|x|o a|o a b|f args|c a b|es|a i|a].
       * apply sim_ENum; exact HG.
       * apply sim_EBool; exact HG.
       * apply sim_EStr; exact HG.
@@ -31,6 +31,9 @@ Proof.
         -- apply sim_EBin; try exact HG; [exact Eo| |]; apply IHe.
       * apply sim_ECall; try exact HG; try exact Hfns; [|exact IHs]. apply Forall_forall. intros a _. apply IHe.
       * apply sim_ECond; try exact HG; apply IHe.
+      * apply sim_EArr; try exact HG. apply Forall_forall. intros a _. apply IHe.
+      * apply sim_EAt; try exact HG; apply IHe.
+      * apply sim_ELen; try exact HG. apply IHe.
     + intros s. destruct s as [ |s1 s2|m x t e|x e|c0 s1 s2|c0 body|x lo hi body| | |[e|]|nl e|e|e].
       * apply sim_SSkip; exact HG.
       * apply sim_SSeq; try exact HG; apply IHs.
